@@ -37,11 +37,23 @@ def nv(xs):
 
 
 def grid(m, g):
-    """m points tagged g: a translate of 0..m-1 whose interior points are moved a little further, so
-    that the *normalised* grid depends on g too (a stale `argvals_stand` is then visible)."""
-    t = np.arange(m, dtype=float) + g / 8.0
-    t[1:-1] += g / 16.0
+    """m points tagged g.  g % 8 = which translate of 0..m-1 (interior points moved a little further, so that
+    the *normalised* grid depends on it too: a stale `argvals_stand` is visible); g // 8 = style:
+    0 strictly increasing, 1 with a REPEATED point (m >= 3), 2 UNSORTED (first and last swapped, m >= 2)."""
+    base, style = g % 8, g // 8
+    t = np.arange(m, dtype=float) + base / 8.0
+    t[1:-1] += base / 16.0
+    if style == 1 and m >= 3:
+        t[2] = t[1]
+    elif style == 2 and m >= 2:
+        t[0], t[-1] = t[-1], t[0]
     return t
+
+
+def style_ok(pts, g):
+    """Can the style of tag g be realised (and read back) on grids with these numbers of points?"""
+    style = g // 8
+    return style == 0 or (style == 1 and all(m >= 3 for m in pts) and len(pts) > 0) or (style == 2 and all(m >= 2 for m in pts) and len(pts) > 0)
 
 
 def obs_values(shape, r):
@@ -252,8 +264,15 @@ def _join(sep, xs):
 
 def _gtag(dense_argvals):
     for t in dense_argvals.values():
+        t = np.asarray(t, dtype=float)
         if len(t):
-            return int(round((float(t[0])) * 8))
+            base = int(round(float(np.min(t)) * 8))
+            style = 0
+            if len(t) >= 3 and np.any(np.diff(t) == 0):
+                style = 1
+            elif len(t) >= 2 and t[0] > t[-1]:
+                style = 2
+            return base + 8 * style
     return 0
 
 
